@@ -55,7 +55,9 @@ def sig_of(v):
         # one class per creation request and place; the privilege numbers gained are listed in the report
         return "/".join(str(x) for x in [v.get("prop"), what, "via%s" % st.get("via")])
     if op == "kick":
-        return "%s/%s/ban%s" % (v.get("prop"), what, st.get("ban"))
+        return "%s/%s/ban%s" % (v.get("prop"), what, st.get("ban")) + ("/bystander-%s-address" % st.get("third") if "bystander" in what else "")
+    if op == "upd":
+        return "%s/%s/via%s" % (v.get("prop"), what, st.get("via"))
     if op == "rt":
         return "%s/%s/missing=%s/extra=%s" % (v.get("prop"), what, _bits(d.get("missing")), _bits(d.get("extra")))
     return "%s/%s" % (v.get("prop"), what)
@@ -64,7 +66,8 @@ def sig_of(v):
 def _case_of(ev):
     """The script (input) part of a logged event."""
     keys = {"handle": ("op", "t", "k", "acc", "rd"), "create": ("op", "via", "by", "acc", "login", "want"),
-            "kick": ("op", "acc", "tacc", "ban"), "rt": ("op", "S", "bytes", "names")}.get(ev.get("op"), ())
+            "kick": ("op", "acc", "tacc", "ban", "third", "pacc"), "rt": ("op", "S", "bytes", "names"),
+            "upd": ("op", "via", "S", "old", "bytes")}.get(ev.get("op"), ())
     return {k: ev[k] for k in keys if k in ev}
 
 
@@ -129,7 +132,7 @@ def run(ctx, prop):
         ctx.notes["rows"] = len(rows)
     if prop == "C06" and (ops.get("create", 0) < 500 or ops.get("kick", 0) < 30):
         raise Fatal("too few C06 cases: %s" % ops)
-    if prop == "C16" and ops.get("rt", 0) < 250:
+    if prop == "C16" and (ops.get("rt", 0) < 250 or ops.get("upd", 0) < 200):
         raise Fatal("too few C16 cases: %s" % ops)
     ctx.notes["cases_by_op"] = ops
     # 3 + 4. real code, then the specification judges
